@@ -210,6 +210,12 @@ func TestC14_Grid(t *testing.T) {
 			run(&callCase{Fn: "CheckMnemonic", Lang: l, Unit: "zoo ", Times: k, Tail: "zoo"})
 		}
 	}
+	// entropies whose sentences have extreme byte length (the longest / shortest words of a list)
+	for _, l := range allLangs() {
+		for _, e := range extremeEntropies(l) {
+			run(&callCase{Fn: "NewMnemonicByEntropy", Lang: int64(implLang[l]), Tail: text(e)})
+		}
+	}
 	// code points at the edges of the blocks the lists' scripts live in, alone and inside a sentence
 	for _, l := range allLangs() {
 		sent := strings.Split(ref.Encode(tableEntropiesSmall(int(l)), l), l.Sep())
